@@ -792,14 +792,19 @@ Section Rt.
     intros Hw sw sw' H. cbn [exec] in H. cbv zeta in H.
     set (k := key_of sw f idx) in *.
     set (s0 := get_blob sw k) in *.
-    set (sz := Z.to_N (wrapZ w false (Z.of_nat (length s0)))) in *.
+    set (sz := N.min (N.of_nat (length s0)) (2 ^ (8 * w) - 1)) in *.
     set (s1 := firstn (N.to_nat sz) s0) in *.
     assert (sw' = emit (emit (set_blob sw k s1) (le_bytes (N.to_nat w) (Z.of_N sz))) s1) by congruence. subst sw'. clear H.
     assert (Hszle : (N.to_nat sz <= length s0)%nat).
-    { unfold sz. pose proof (wrapZ_unsigned_le w (Z.of_nat (length s0)) ltac:(lia)). pose proof (wrapZ_unsigned_range w (Z.of_nat (length s0))). lia. }
+    { unfold sz. lia. }
     assert (Hs1 : length s1 = N.to_nat sz) by (unfold s1; rewrite firstn_length; lia).
-    assert (Hzz : Z.of_N sz = wrapZ w false (Z.of_nat (length s0))).
-    { unfold sz. rewrite Z2N.id; [reflexivity|apply wrapZ_unsigned_range]. }
+    assert (Hzz : (0 <= Z.of_N sz < 256 ^ Z.of_nat (N.to_nat w))%Z).
+    { assert (Hp : (256 ^ Z.of_nat (N.to_nat w) = 2 ^ (8 * Z.of_N w))%Z).
+      { change 256%Z with (2 ^ 8)%Z. rewrite <- Z.pow_mul_r by lia. f_equal. lia. }
+      rewrite Hp. assert (Hs : sz <= 2 ^ (8 * w) - 1) by (unfold sz; lia).
+      assert (H2 : 0 < 2 ^ (8 * w)) by (apply N.neq_0_lt_0, N.pow_nonzero; lia).
+      assert (Hc : Z.of_N (2 ^ (8 * w)) = (2 ^ (8 * Z.of_N w))%Z) by (rewrite N2Z.inj_pow; f_equal; lia).
+      lia. }
     exists (le_bytes (N.to_nat w) (Z.of_N sz) ++ s1). split.
     - unfold wrote, emit. cbn [out set_blob]. rewrite !rev_append_rev, rev_app_distr, app_assoc. reflexivity.
     - intros sr rest Hag Hwf Hi. cbn [exec]. cbv zeta. rewrite <- app_assoc in Hi.
@@ -809,7 +814,7 @@ Section Rt.
       replace (read sr w) with (read sr (N.of_nat (length lb))) by (f_equal; lia).
       rewrite Hr. rewrite overlay_full by exact Hlb.
       assert (Hdec : Z.to_N (of_le_bytes lb) = sz).
-      { unfold lb. rewrite Hzz, of_le_wrap, <- Hzz. apply N2Z.id. }
+      { unfold lb. rewrite of_le_bytes_le_bytes, Z.mod_small by exact Hzz. apply N2Z.id. }
       rewrite Hdec.
       destruct (read_exact u s1 rest W1 I1) as (u2 & Hr2 & I2 & W2 & F1 & F2 & F3 & F4 & F5).
       replace (read u sz) with (read u (N.of_nat (length s1))) by (f_equal; lia).
